@@ -11,6 +11,7 @@ import traceback
 from mc import core, graphprog as gp
 from mc.engines import progenum
 from mc.oracles import scgf, server_ops
+from mc.oracles import c01x_ref as xr
 
 MODE = 'nrt'
 MODNAME = 'mc.checks.c01'
@@ -131,6 +132,539 @@ def work(job):
     return acc.result()
 
 
+# ---- extended programs (grammar of mc/oracles/c01x_ref.py) -----------------
+
+_SIG = {'p': 'p=0.25', 'i': "i: 'ir' = 0.75", 't': "t: 'tr' = 0.5",
+        'u': "u: 'ar' = 0.125"}
+
+
+def xmake(prog):
+    """A real graph function for an extended program."""
+    leaves = xr.leaves_of(prog)
+    params = [xr.PARAMS[lf] for lf in ('P', 'I', 'T', 'U') if lf in leaves]
+    ref_syn = xr.interpret(prog)['syn']
+
+    def one(v):
+        # Mix.new answers a one-channel list for short inputs
+        while isinstance(v, list) and len(v) == 1:
+            v = v[0]
+        return v
+
+    def run(env):
+        from sc3.synth.ugens import (oscillators, noise, line, filter, inout,
+                                     trig, envgen, mix)
+        from sc3.synth.ugen import ChannelList, MulAdd, Sum3, Sum4
+        vals = []
+
+        def leaf(a):
+            if a not in env:
+                t = xr.tag_of(prog, xr.unit_key(a))
+                if a in ('A', 'B'):
+                    env[a] = oscillators.SinOsc.ar(t)
+                elif a == 'K':
+                    env[a] = oscillators.SinOsc.kr(t)
+                elif a == 'N':
+                    env[a] = noise.LFNoise0.ar(t)
+                elif a == 'L':
+                    env[a] = line.Line.kr(t, 1, 1, 0)
+                elif a == 'R':
+                    env[a] = noise.Rand.new(t, t + 0.5)
+                elif a in ('X0', 'X1'):
+                    x = inout.In.ar(t, 2)
+                    env['X0'], env['X1'] = x[0], x[1]
+            return env[a]
+
+        def get(a):
+            if xr.is_const(a):
+                return a
+            if xr.is_val(a):
+                return vals[int(a[1:])]
+            return leaf(a)
+
+        for k, st in enumerate(prog['stmts']):
+            op = st[0]
+            xs = [get(a) for a in st[1:]]
+            if op == 'neg':
+                v = -xs[0]
+            elif op == 'add':
+                v = xs[0] + xs[1]
+            elif op == 'sub':
+                v = xs[0] - xs[1]
+            elif op == 'mul':
+                v = xs[0] * xs[1]
+            elif op == 'div':
+                v = xs[0] / xs[1]
+            elif op == 'madd':
+                v = xs[0].madd(xs[1], xs[2])
+            elif op == 'umadd':
+                v = MulAdd.new(xs[0], xs[1], xs[2])
+            elif op in ('sum3', 'sum4'):
+                v = ChannelList(xs).sum()
+            elif op == 'usum3':
+                v = Sum3.new(*xs)
+            elif op == 'usum4':
+                v = Sum4.new(*xs)
+            elif op == 'mix':
+                v = one(mix.Mix.new(list(xs)))
+            elif op == 'sum':
+                v = ChannelList(xs).sum()
+            elif op == 'range':
+                v = xs[0].range(xs[1], xs[2])
+            elif op == 'unipolar':
+                v = xs[0].unipolar(xs[1])
+            elif op == 'bipolar':
+                v = xs[0].bipolar(xs[1])
+            elif op == 'linlin':
+                ctor = line.LinLin.ar if ref_syn[k] == 2 else line.LinLin.kr
+                v = ctor(*xs)
+            elif op == 'abs':
+                v = abs(xs[0])
+            elif op == 'min':
+                v = xs[0].min(xs[1])
+            elif op == 'lpf':
+                v = filter.LPF.ar(xs[0], xr.tag_of(prog, f'F{k}'))
+            elif op == 'trg':
+                v = trig.Trig1.kr(xs[0], xr.tag_of(prog, f'G{k}'))
+            elif op == 'fs':
+                v = envgen.FreeSelf.kr(xs[0])
+            vals.append(v)
+        for sk in prog.get('sinks', []):
+            ctor = getattr(getattr(inout, sk[0]), sk[1])
+            nfix = xr.SINKS[sk[0]]
+            fixed = [get(a) for a in sk[2:2 + nfix]]
+            chans = [get(a) for a in sk[2 + nfix:]]
+            ctor(*fixed, chans[0] if len(chans) == 1 else chans)
+
+    src = 'def graph({}):\n    run({{{}}})\n'.format(
+        ', '.join(_SIG[n] for n in params),
+        ', '.join(f'{xr.PARAM_LEAF[n]!r}: {n}' for n in params))
+    ns = {'run': run}
+    exec(src, ns)
+    return ns['graph']
+
+
+def xbuild(prog, name='x'):
+    from sc3.synth.synthdef import SynthDef
+    return gp.sd_bytes(SynthDef(name, xmake(prog)))
+
+
+def _build_failure(e, nontrivial):
+    tb = traceback.extract_tb(e.__traceback__)
+    where = next((f.name for f in reversed(tb) if '/sc3/' in f.filename),
+                 '?')
+    kind = f'build-raises-{type(e).__name__}@{where}'
+    return [(kind, 'a compiled definition', repr(e)[:300],
+             'well-formed program rejected')], nontrivial, kind, False
+
+
+def check_xprogram(prog):
+    """-> (disagreements, nontrivial, outcome, skipped)"""
+    from sc3.base.main import main
+    try:
+        ref = xr.interpret(prog)
+    except xr.IllFormed:
+        return [], False, None, True
+    try:
+        data = xbuild(prog)
+    except Exception as e:
+        main._current_synthdef = None
+        return _build_failure(e, ref['nontrivial'])
+    try:
+        d = scgf.decode(data)['defs']
+        if len(d) != 1:
+            raise scgf.FormatError(f'{len(d)} definitions')
+        d = d[0]
+    except scgf.FormatError as e:
+        return [('scgf-unparsable', 'SCgf v2', repr(e), '')], \
+            ref['nontrivial'], 'unparsable', False
+    dis = xr.compare(prog, ref, d)
+    outcome = [[u['name'], u['rate'], u['special'], u['inputs']]
+               for u in d['units']]
+    return dis, ref['nontrivial'], outcome, False
+
+
+# ---- families of extended programs -----------------------------------------
+
+XPOOLS = {
+    # one statement over output proxies (controls of every kind, In.ar
+    # channels) and a scalar-rate unit
+    'px1': dict(sig=['A', 'K', 'P', 'I', 'T', 'U', 'X0', 'X1', 'R'],
+                const=[0, 1, -1, 2], tern=['P', 'X0', 0, -1, 2],
+                sum=['A', 'P', 'X0', 'X1', 0, 2], sum4=['P', 'X0', 0, 2],
+                minb=['P', 2],
+                ops=['neg', 'abs', 'add', 'sub', 'mul', 'div', 'min', 'lpf',
+                     'madd', 'sum3', 'sum4']),
+    'px2': dict(sig=['A', 'P', 'X0'], const=[0, 2], tern=['P', 2],
+                sum=['A', 'P', 'X0'], sum4=[], minb=[],
+                ops=['neg', 'add', 'sub', 'mul', 'madd', 'sum3']),
+    # thorough only: two statements over a wider proxy pool
+    'px2T': dict(sig=['A', 'K', 'P', 'U', 'X0', 'X1'], const=[0, -1, 2],
+                 tern=['P', 'X1', -1, 2], sum=['A', 'P', 'X0', 'X1', 0],
+                 sum4=[], minb=[],
+                 ops=['neg', 'add', 'sub', 'mul', 'div', 'madd', 'sum3']),
+    'px3': dict(sig=['A', 'P'], const=[-1], tern=[],
+                sum=['A', 'P'], sum4=[], minb=[],
+                ops=['neg', 'add', 'sub', 'mul', 'sum3']),
+}
+CONST_SPELLINGS = [0.0, 1.0, -1.0, -0.0, True, False, 2.0, -2, -0.5]
+
+
+def _auto_sinks(ref, which):
+    """Out.ar(0, v) for values that are certainly audio rate, Out.kr(1, v)
+    for the others, one unit per selected value."""
+    out = []
+    for i in which:
+        out.append(['Out', 'ar', 0, f'v{i}'] if ref['nf'][i] == 2
+                   else ['Out', 'kr', 1, f'v{i}'])
+    return out
+
+
+def _with_outs(stmts, outs, tagbase):
+    """Programs for a statement list and output options; ill-formed
+    statement lists answer nothing."""
+    base = {'x': 1, 'stmts': stmts, 'sinks': [], 'tagbase': tagbase}
+    try:
+        ref = xr.interpret(base)
+    except xr.IllFormed:
+        return
+    n = len(stmts)
+    for o in outs:
+        if o == 'last':
+            sinks = _auto_sinks(ref, [n - 1])
+        elif o == 'each':
+            if n == 1:
+                continue
+            sinks = _auto_sinks(ref, range(n))
+        elif o == 'first':
+            if n == 1:
+                continue
+            sinks = _auto_sinks(ref, [0])
+        elif o == 'list':
+            if n == 1:
+                continue
+            ar = all(r == 2 for r in ref['nf'])
+            sinks = [['Out', 'ar' if ar else 'kr', 0 if ar else 1] +
+                     [f'v{i}' for i in range(n)]]
+        elif o == 'none':
+            sinks = []
+        yield dict(base, sinks=sinks)
+
+
+def _tuples(pool, n):
+    if n == 0:
+        yield []
+        return
+    for t in _tuples(pool, n - 1):
+        for a in pool:
+            yield t + [a]
+
+
+def fused_statements(level):
+    """Direct calls of the fused-unit constructors and Mix.new."""
+    if level == 1:
+        s3 = ['A', 'K', 'N', 'P', 'I', 0, 1, 2]
+        s4 = ['A', 'K', 'P', 0, 2]
+        ma = ['A', 'K', 'I', 0, 1, -1, 2]
+        mx = {2: ['A', 'K', 0, 2], 3: ['A', 'K', 0, 2], 4: ['A', 'K', 0, 2],
+              5: ['A', 'K', 0, 2], 6: ['A', 0]}
+    else:
+        s3 = ['A', 'K', 0]
+        s4 = ['A', 'K', 0]
+        ma = ['A', 'K', 0, -1, 2]
+        mx = {3: ['A', 'K', 0], 4: ['A', 0], 5: ['A', 0]}
+    out = []
+    for op, pool, n in (('usum3', s3, 3), ('usum4', s4, 4),
+                        ('umadd', ma, 3)):
+        for t in _tuples(pool, n):
+            if not all(xr.is_const(a) for a in t):
+                out.append([op] + t)
+    for n in sorted(mx):
+        for t in _tuples(mx[n], n):
+            if not all(xr.is_const(a) for a in t):
+                out.append(['mix'] + t)
+    return out
+
+
+FUSED_CONSUMERS = [
+    ['neg', 'v0'], ['add', 'v0', 'A'], ['add', 'A', 'v0'],
+    ['add', 'v0', 'v0'], ['sub', 'A', 'v0'], ['sub', 'v0', 'K'],
+    ['mul', 'v0', 2], ['mul', 'v0', 'v0'], ['usum3', 'v0', 'A', 0],
+    ['usum3', 'v0', 'v0', 'K'], ['usum4', 'v0', 'A', 'K', 0],
+    ['usum4', 'A', 'v0', 'v0', 0], ['umadd', 'v0', 2, 'A'],
+    ['umadd', 2, 'v0', 'K'], ['umadd', 'v0', 'v0', 'v0'],
+    ['mix', 'v0', 'A'], ['mix', 'v0', 'A', 'K'],
+    ['mix', 'A', 'K', 'v0', 'v0'], ['mix', 'v0', 'A', 'K', 'A', 'N'],
+    ['trg', 'v0'], ['fs', 'v0'], ['lpf', 'v0']]
+
+
+def sink_forms(v, w):
+    """Every sink unit form over a channel value v and a second channel w."""
+    chans = [[v], [v, v], [v, 0], [0, v], [v, w]]
+    out = []
+    for cls in ('Out', 'ReplaceOut', 'OffsetOut'):
+        for rate in ('ar', 'kr'):
+            for bus in (0, 'K', 'P'):
+                for ch in chans:
+                    out.append([cls, rate, bus] + ch)
+    for rate in ('ar', 'kr'):
+        for bus in (0, 'K', 'P'):
+            for xf in (0.5, 'K'):
+                for ch in chans:
+                    out.append(['XOut', rate, bus, xf] + ch)
+        for ch in chans:
+            out.append(['LocalOut', rate] + ch)
+    return out
+
+
+SINK_BODIES = [
+    ([], 'A', 'B'), ([], 'U', 'X1'),
+    ([['add', 'A', 'B']], 'v0', 'A'),
+    ([['add', 'A', 'K']], 'v0', 'B'),
+    ([['mul', 'K', 2]], 'v0', 'K'),
+    ([['add', 'A', 'B'], ['add', 'v0', 'N']], 'v1', 'A'),
+    ([['neg', 'A'], ['add', 'B', 'v0']], 'v1', 'v0'),
+    ([['mix', 'A', 'B', 'N']], 'v0', 'X0'),
+]
+EFFECT_FIRST = [['neg', 'N'], ['add', 'A', 'K'], ['add', 'A', 'N'],
+                ['mul', 'K', 'L'], ['sum3', 'A', 'K', 'N'],
+                ['add', 'L', 0], ['usum3', 'A', 'B', 'N'], ['neg', 'R']]
+EFFECT_SECOND = [['trg', 'v0'], ['fs', 'v0'], ['trg', 'N'], ['fs', 'L']]
+EFFECT_THIRD = [None, ['neg', 'v1'], ['mul', 'v1', 2], ['add', 'v1', 'A'],
+                ['add', 'v1', 'v0'], ['trg', 'v1'], ['fs', 'v1'],
+                ['sub', 'v0', 'v1']]
+
+
+def xprograms(family, tagbase, shard=0, of=1, slice_of=1, slice_ix=0):
+    """The programs of an extended family that fall in this shard (and, for
+    a sliced family, in the selected slice), canonical order.  The proxy
+    families are sharded by the index of the statement prefix, the others by
+    the index of the program."""
+    if family in ('proxy2', 'proxy3', 'proxy2T'):
+        n = int(family[5])
+        pool = XPOOLS['px' + family[5:]]
+        outs = {2: ['last', 'each', 'list'], 3: ['last', 'each']}[n]
+
+        def rec(k, prefix):
+            if k == n - 1:
+                yield prefix
+                return
+            for st in gp.statements(k, pool):
+                yield from rec(k + 1, prefix + [st])
+        idx = -1
+        for prefix in rec(0, []):
+            idx += 1
+            if idx % of != shard:
+                continue
+            if slice_of > 1 and (idx // of) % slice_of != slice_ix:
+                continue
+            for st in gp.statements(n - 1, pool):
+                yield from _with_outs(prefix + [st], outs, tagbase)
+        return
+    idx = -1
+    for prog in _xfamily(family, tagbase):
+        idx += 1
+        if idx % of != shard:
+            continue
+        if slice_of > 1 and (idx // of) % slice_of != slice_ix:
+            continue
+        yield prog
+
+
+def _xfamily(family, tagbase):
+    if family == 'proxy1':
+        for st in gp.statements(0, XPOOLS['px1']):
+            yield from _with_outs([st], ['last', 'none'], tagbase)
+    elif family == 'fused1':
+        for st in fused_statements(1):
+            yield from _with_outs([st], ['last', 'none'], tagbase)
+    elif family in ('fused2', 'fused2T'):
+        for st in fused_statements(1 if family == 'fused2T' else 2):
+            for c in FUSED_CONSUMERS:
+                yield from _with_outs([st, c], ['last', 'each', 'first'],
+                                      tagbase)
+    elif family == 'spell':
+        C = CONST_SPELLINGS
+        for op in ('add', 'sub', 'mul', 'div'):
+            for x in ('A', 'K'):
+                for c in C:
+                    yield from _with_outs([[op, x, c]], ['last'], tagbase)
+                    yield from _with_outs([[op, c, x]], ['last'], tagbase)
+        for op in ('madd', 'umadd'):
+            for c1 in C + ['K']:
+                for c2 in C + ['K']:
+                    yield from _with_outs([[op, 'A', c1, c2]], ['last'],
+                                          tagbase)
+        for c in C:
+            for t in (['A', 'K', c], ['A', c, 'K'], [c, 'A', 'K'],
+                      [c, c, 'A']):
+                yield from _with_outs([['usum3'] + t], ['last'], tagbase)
+                yield from _with_outs([['sum3'] + t], ['last'], tagbase)
+                yield from _with_outs([['usum4', 'B'] + t], ['last'],
+                                      tagbase)
+                yield from _with_outs([['mix'] + t + ['B']], ['last'],
+                                      tagbase)
+    elif family == 'sums':
+        for n, pool in ((5, ['A', 'K', 'N', 0]), (6, ['A', 'K', 0]),
+                        (7, ['A', 'K']), (8, ['A', 'K'])):
+            for t in _tuples(pool, n):
+                if not all(xr.is_const(a) for a in t):
+                    yield from _with_outs([['sum'] + t], ['last'], tagbase)
+        for n, pool in ((5, ['A', 'K']), (6, ['A', 'K'])):
+            for t in _tuples(pool, n):
+                for c in (['add', 'v0', 'v0'], ['add', 'B', 'v0'],
+                          ['sum', 'v0', 'A', 'B', 'v0', 'K']):
+                    yield from _with_outs([['sum'] + t, c],
+                                          ['last', 'each'], tagbase)
+        # Mix.new clumps by four and recurses on more than twelve channels
+        for n in range(7, 18):
+            for pat in (['A'], ['A', 'K'], ['A', 0, 'K', 2], [0, 'A'],
+                        ['K', 'K', 'A'], ['N', 'A', 'A', 'A', 'A', 'B']):
+                t = (pat * n)[:n]
+                yield from _with_outs([['mix'] + t], ['last'], tagbase)
+                yield from _with_outs([['mix'] + t, ['add', 'v0', 'v0']],
+                                      ['last'], tagbase)
+    elif family == 'scale':
+        C = [-1, 0, 1, 2, 0.5]
+        recv = [([], x) for x in ('A', 'K', 'N', 'L', 'P', 'I', 'U', 'X1')]
+        recv += [([['trg', 'A']], 'v0'), ([['trg', 'K']], 'v0')]
+        for pre, x in recv:
+            for lo in C:
+                for hi in C:
+                    yield from _with_outs(pre + [['range', x, lo, hi]],
+                                          ['last'], tagbase)
+                yield from _with_outs(pre + [['unipolar', x, lo]], ['last'],
+                                      tagbase)
+                yield from _with_outs(pre + [['bipolar', x, lo]], ['last'],
+                                      tagbase)
+            for src in ((0, 1), (-1, 1), (0, 2), (1, 0), (1, -1)):
+                for dst in ((0, 1), (1, 2), (-1, 1), (2, 0), (0, 0),
+                            (0.5, 1)):
+                    yield from _with_outs(
+                        pre + [['linlin', x] + list(src) + list(dst)],
+                        ['last'], tagbase)
+    elif family == 'sinks':
+        for stmts, v, w in SINK_BODIES:
+            forms = sink_forms(v, w)
+            for f in forms:
+                yield {'x': 1, 'stmts': stmts, 'sinks': [f],
+                       'tagbase': tagbase}
+            for f in forms:
+                # a second unit next to a plain output of the same value
+                yield {'x': 1, 'stmts': stmts,
+                       'sinks': [['Out', 'kr', 1, v], f],
+                       'tagbase': tagbase}
+    elif family == 'effects':
+        for a in EFFECT_FIRST:
+            for b in EFFECT_SECOND:
+                for c in EFFECT_THIRD:
+                    stmts = [a, b] + ([c] if c else [])
+                    yield from _with_outs(stmts, ['none', 'last', 'first'],
+                                          tagbase)
+    else:
+        raise ValueError(family)
+
+
+def work_x(job):
+    acc = progenum.Acc()
+    for prog in xprograms(job['family'], job['tagbase'], job['shard'],
+                          job['of'], job.get('slice_of', 1),
+                          job.get('slice_ix', 0)):
+        dis, nt, outcome, skipped = check_xprogram(prog)
+        if skipped:
+            acc.count('skipped_ill_formed')
+            continue
+        for kind, exp, obs, detail in dis:
+            acc.violation(kind, prog, exp, obs, detail,
+                          size=len(prog['stmts']) * 10000 +
+                          len(core.canon(prog)))
+        acc.case(prog, nt, outcome, steps=len(prog['stmts']) + 1)
+    return acc.result()
+
+
+# ---- census of units that must never be dropped -----------------------------
+
+def census_graph(case):
+    import importlib
+    from sc3.synth.ugens import oscillators, line, inout
+    from sc3.synth import ugen as ugn
+    mod, cls, ctor, args, nout = xr.CENSUS[case['census']]
+    klass = getattr(importlib.import_module('sc3.synth.ugens.' + mod), cls)
+    state = {'skip': False}
+
+    def graph():
+        env = {}
+
+        def arg(a):
+            if a == 'A':
+                return env.setdefault('A', oscillators.SinOsc.ar(101.0))
+            if a == 'K':
+                return env.setdefault('K', oscillators.SinOsc.kr(103.0))
+            if a == 'L':
+                return env.setdefault('L', line.Line.kr(104.0, 1, 1, 0))
+            return a
+
+        u = getattr(klass, ctor)(*[arg(a) for a in args])
+        use = case['use']
+        if use != 'unused':
+            src = u.source_ugen if isinstance(u, ugn.OutputProxy) else u
+            if type(src).__name__ != cls:
+                # the constructor does not answer the unit (FreeSelf.kr
+                # answers its input): nothing can consume it
+                state['skip'] = True
+                return
+        if use == 'dead-neg':
+            -u
+        elif use == 'dead-mul':
+            u * 0.5
+        elif use == 'dead-chain':
+            abs(-u) * 2
+        elif use == 'dead-pure':
+            oscillators.SinOsc.ar(u)
+        elif use == 'live':
+            inout.Out.kr(1, u)
+        inout.Out.ar(0, oscillators.SinOsc.ar(100.0))
+
+    return graph, state
+
+
+def check_census(case):
+    """-> (disagreements, outcome, skipped)"""
+    from sc3.base.main import main
+    from sc3.synth.synthdef import SynthDef
+    graph, state = census_graph(case)
+    try:
+        data = gp.sd_bytes(SynthDef('census', graph))
+    except Exception as e:
+        main._current_synthdef = None
+        dis, _, kind, _ = _build_failure(e, True)
+        return dis, kind, False
+    if state['skip']:
+        return [], None, True
+    try:
+        d = scgf.decode(data)['defs'][0]
+    except scgf.FormatError as e:
+        return [('scgf-unparsable', 'SCgf v2', repr(e), '')], 'unparsable', \
+            False
+    dis = xr.census_expect(case, d)
+    return dis, [[u['name'], u['rate'], len(u['inputs']), u['outputs']]
+                 for u in d['units']], False
+
+
+def work_census(job):
+    acc = progenum.Acc()
+    for i, case in enumerate(xr.census_cases()):
+        if i % job['of'] != job['shard']:
+            continue
+        dis, outcome, skipped = check_census(case)
+        if skipped:
+            acc.count('skipped_constructor_answers_no_unit')
+            continue
+        for kind, exp, obs, detail in dis:
+            acc.violation(kind, {'censuscase': case}, exp, obs, detail)
+        acc.case({'censuscase': case}, True, outcome)
+    return acc.result()
+
+
 # ---- flat operator sweep --------------------------------------------------
 
 def op_cases():
@@ -151,26 +685,76 @@ def op_cases():
                 cases.append({'op': m, 'arity': 2, 'recv': recv,
                               'other': other, 'server': srv,
                               'reflected': True})
+    # scalar-rate operands (an 'ir' control): the unit runs at scalar rate
+    for m, srv in sorted(server_ops.PY_UNARY.items()):
+        cases.append({'op': m, 'arity': 1, 'recv': 'I', 'server': srv})
+    for m, srv in sorted(server_ops.PY_BINARY.items()):
+        for recv, other in (('I', 3), ('I', 'K'), ('A', 'I'), ('I', 'I')):
+            cases.append({'op': m, 'arity': 2, 'recv': recv,
+                          'other': other, 'server': srv,
+                          'reflected': False})
+    for m, srv in sorted(server_ops.PY_REFLECTED.items()):
+        cases.append({'op': m, 'arity': 2, 'recv': 'I', 'other': 3,
+                      'server': srv, 'reflected': True})
+    # the same operators reached through the functions of sc3.base.builtins
+    # (f(signal), f(signal, x) and f(number, signal))
+    for m, srv in sorted(server_ops.PY_UNARY.items()):
+        if not m.startswith('__'):
+            for recv in ('A', 'K', 'I'):
+                cases.append({'op': m, 'arity': 1, 'recv': recv,
+                              'server': srv, 'route': 'bi'})
+    for m, srv in sorted(server_ops.PY_BINARY.items()):
+        if not m.startswith('__'):
+            for recv, other in (('A', 'K'), ('K', 3), ('I', 0.5)):
+                cases.append({'op': m, 'arity': 2, 'recv': recv,
+                              'other': other, 'server': srv,
+                              'reflected': False, 'route': 'bi'})
+            for recv, other in (('A', 3), ('K', 0.5), ('I', 3)):
+                cases.append({'op': m, 'arity': 2, 'recv': recv,
+                              'other': other, 'server': srv,
+                              'reflected': True, 'route': 'bi'})
     return cases
 
 
 def check_op(case):
+    """-> (disagreements, observed units); (None, None) when the spelling
+    does not exist in sc3.base.builtins (not decided by the property)."""
     from sc3.base.main import main
     from sc3.synth.synthdef import SynthDef
     from sc3.synth.ugens import oscillators, inout
+    from sc3.base import builtins as bi
 
-    def graph():
+    route = case.get('route')
+    if route == 'bi' and not hasattr(bi, case['op']):
+        return None, None
+    uses_i = 'I' in (case['recv'], case.get('other'))
+
+    def body(i):
         env = {'A': oscillators.SinOsc.ar(101.0),
                'B': oscillators.SinOsc.ar(102.0),
-               'K': oscillators.SinOsc.kr(103.0)}
+               'K': oscillators.SinOsc.kr(103.0), 'I': i}
         x = env[case['recv']]
         if case['arity'] == 1:
-            r = getattr(x, case['op'])()
+            if route == 'bi':
+                r = getattr(bi, case['op'])(x)
+            else:
+                r = getattr(x, case['op'])()
         else:
             o = case['other']
             o = env[o] if isinstance(o, str) else o
-            r = getattr(x, case['op'])(o)
+            if route == 'bi':
+                f = getattr(bi, case['op'])
+                r = f(o, x) if case['reflected'] else f(x, o)
+            else:
+                r = getattr(x, case['op'])(o)
         inout.Out.kr(1, r)
+
+    if uses_i:
+        def graph(i: 'ir' = 0.75):
+            body(i)
+    else:
+        def graph():
+            body(None)
 
     try:
         data = gp.sd_bytes(SynthDef('op', graph))
@@ -186,15 +770,17 @@ def check_op(case):
     table = server_ops.UN if case['arity'] == 1 else server_ops.BIN
     want_special = table[case['server']]
     ops = [u for u in d['units'] if u['name'] in gp.ARITH]
-    tagrate = {'A': 2, 'B': 2, 'K': 1}
+    tagrate = {'A': 2, 'B': 2, 'K': 1, 'I': 0}
 
     def src(inp):
         if inp[0] == 'c':
             return d['constants'][inp[1]]
         u = d['units'][inp[1]]
-        t = u['inputs'][0]
+        if u['name'] == 'Control' and u['rate'] == 0:
+            return 'I'
+        t = u['inputs'][0] if u['inputs'] else None
         return {101.0: 'A', 102.0: 'B', 103.0: 'K'}.get(
-            d['constants'][t[1]] if t[0] == 'c' else None, '?')
+            d['constants'][t[1]] if t and t[0] == 'c' else None, '?')
 
     if case['arity'] == 1:
         want_in = [case['recv']]
@@ -221,17 +807,36 @@ def work_ops(job):
         if i % job['of'] != job['shard']:
             continue
         dis, got = check_op(case)
+        if dis is None:
+            acc.count('skipped_no_such_builtin')
+            continue
         for kind, exp, obs, detail in dis:
             acc.violation(kind, {'opcase': case}, exp, obs, detail)
         acc.case({'opcase': case}, True, got)
     return acc.result()
 
 
+def bi_bitnot(v):
+    """sc3.base.builtins.bitnot(signal): the function spelling of bitNot is
+    missing from the opcode table."""
+    c = v['case'].get('opcase') or {}
+    return c.get('op') == 'bitnot' and c.get('route') == 'bi' and \
+        c.get('arity') == 1
+
+
+PREDICATES = {'bi_bitnot': bi_bitnot}
+
+
 def replay(job):
     case = job['case']
     if 'opcase' in case:
         dis, got = check_op(case['opcase'])
+        dis = dis or []
         observed = got
+    elif 'censuscase' in case:
+        dis, observed, _ = check_census(case['censuscase'])
+    elif case.get('x'):
+        dis, _, observed, _ = check_xprogram(case)
     else:
         dis, _, observed, _ = check_program(case)
     return {'violates': any(d[0] == job['kind'] for d in dis),
@@ -253,7 +858,27 @@ def main(ctx):
         'add/sub over a value produced by add/mul/neg/sum (optimiser rewrite). '
         'Lane programs: the same statements (neg add sub mul div madd) over '
         'leaves that are channel lists, one channel per lane with lanes of '
-        'different rates; meaning = the scalar program run once per lane.')
+        'different rates; meaning = the scalar program run once per lane. '
+        'Extended programs (grammar and reference semantics in '
+        'mc/oracles/c01x_ref.py): families fused1/fused2 (Sum3.new, Sum4.new,'
+        ' MulAdd.new called directly with constants in every position, '
+        'Mix.new of 2..6 channels, then one consumer), spell (neutral / '
+        'absorbing / negative constants spelled 0.0 1.0 -1.0 -0.0 True False '
+        '2.0 -2 -0.5), sums (one .sum() of 5..8 channels, Mix.new of 7..17 '
+        'channels), scale (range / '
+        'unipolar / bipolar / LinLin), sinks (Out ReplaceOut OffsetOut XOut '
+        'LocalOut x ar/kr x constant or signal bus / xfade x channel lists '
+        'with silence), effects (Trig1 / FreeSelf on computed values, dead '
+        'and live consumers), proxy1..3 (the base operators over TrigControl,'
+        ' AudioControl, In.ar channels, Rand and kr/ir controls); non-trivial'
+        ' there = an extended operator, leaf, sink or constant spelling, a '
+        'neutral constant, a shared operand or a dead value occurs. Census: '
+        'every unit of a typed-in list of side-effecting / stateful classes, '
+        'created unused, under a dead neg / mul / chain / pure consumer, or '
+        'live, must occur exactly once at its own rate (all count as '
+        'non-trivial). Operator sweep: every operator method x every receiver'
+        ' / operand rate incl. scalar, also through the functions of '
+        'sc3.base.builtins.')
     ctx.assumptions += [
         'reference semantics: mc/graphprog.py interpret() + mc/oracles/poly.py'
         ' (ring identities of + - * neg, x/c=x*(1/c)); opcode numbering typed '
@@ -261,7 +886,15 @@ def main(ctx):
         'well-formedness rule of DESIGN.md C01: Out.ar only for values whose '
         'normal form contains an audio-rate atom; division by a zero signal '
         'and constant-only statements are not generated',
-        'constants are float32-exact; atoms carry unique tag constants']
+        'constants are float32-exact; atoms carry unique tag constants',
+        'census list (mc/oracles/c01x_ref.py CENSUS) typed from the '
+        'SuperCollider class documentation: units with a done action, node '
+        'control, bus / buffer / disk writers, client messages, random '
+        'generators; a random generator counts as stateful (never dropped), '
+        'as LFNoise0 does in the base programs',
+        'x.range(lo, hi) of a bipolar unit = x*(hi-lo)/2 + (hi-lo)/2 + lo, of '
+        'a unipolar one (Trig1) = x*(hi-lo) + lo; LinLin = the affine map of '
+        'its documentation']
     tagbase = 100 + 32 * (ctx.seed % 4)
     NS = 128
     progenum.run(ctx, MODNAME, 'work_ops',
@@ -283,6 +916,32 @@ def main(ctx):
                      [{'space': 'l2', 'shard': i, 'of': NS, 'lanes': ln,
                        'tagbase': tagbase} for i in range(NS)],
                      bound=f'2 statements over channel lists (lanes {ln})')
+    progenum.run(ctx, MODNAME, 'work_census',
+                 [{'shard': i, 'of': 16} for i in range(16)],
+                 bound='census of units that must not be dropped')
+    for fam, ns in (('fused1', 16), ('spell', 16), ('sums', 16),
+                    ('scale', 16), ('sinks', 16), ('effects', 16),
+                    ('proxy1', 16), ('fused2', 32),
+                    ('proxy2', NS)):
+        progenum.run(ctx, MODNAME, 'work_x',
+                     [{'family': fam, 'shard': i, 'of': ns,
+                       'tagbase': tagbase} for i in range(ns)],
+                     bound=f'extended programs: {fam}')
+    if ctx.tier == 'quick':
+        k = 32
+        progenum.run(ctx, MODNAME, 'work_x',
+                     [{'family': 'proxy3', 'shard': i, 'of': NS,
+                       'tagbase': tagbase, 'slice_of': k,
+                       'slice_ix': core.pick_slice(ctx.seed, k)}
+                      for i in range(NS)],
+                     bound=f'extended programs: proxy3, 1/{k} slice chosen '
+                           'by seed (not exhaustive)')
+    else:
+        for fam in ('proxy3', 'proxy2T', 'fused2T'):
+            progenum.run(ctx, MODNAME, 'work_x',
+                         [{'family': fam, 'shard': i, 'of': 512,
+                           'tagbase': tagbase} for i in range(512)],
+                         bound=f'extended programs: {fam}')
     if ctx.tier == 'quick':
         k = 64
         for sp in ('s3', 's3N'):
@@ -294,8 +953,10 @@ def main(ctx):
                          bound=f'3 statements ({sp}), 1/{k} slice chosen by '
                                'seed (not exhaustive)')
         ctx.extra['exhaustive_bounds'] = ['operator sweep', '1 statement',
-                                          '2 statements']
-        ctx.extra['sampled_slice'] = '3 statements: 1/64 of the prefixes'
+                                          '2 statements', 'census',
+                                          'extended families except proxy3']
+        ctx.extra['sampled_slice'] = ('3 statements: 1/64 of the prefixes; '
+                                      'proxy3: 1/32 of the prefixes')
     else:
         for sp in ('s3', 's3N'):
             progenum.run(ctx, MODNAME, 'work',
@@ -304,4 +965,5 @@ def main(ctx):
                          bound=f'3 statements ({sp})')
         ctx.extra['exhaustive_bounds'] = ['operator sweep', '1 statement',
                                           '2 statements',
-                                          '3 statements (tiny pools)']
+                                          '3 statements (tiny pools)',
+                                          'census', 'all extended families']
